@@ -68,6 +68,8 @@ func verifLemmaPtsRoundTrip(buf []byte, fb uint8, x uint64) (uint8, uint64) {
 //@   loop 1 invariant fresh(buf) && first == (lpos == 0) && (lpos > 0 ==> packetPosAtBuf >= 188)
 //@   loop 1 invariant [C09.cc.inv] thorough int: frame.Cc == entry(frame.Cc) + uint8(packetPosAtBuf / 188)
 //@   loop 1 decreases rpos - lpos
+//@   assert after "packet[wpos+1] = uint8(pesSize & 0xFF)" [C09.pes.len] pesSize == (len(frame.Raw) + int(headerSize) + 3 > 0xFFFF ? 0 : len(frame.Raw) + int(headerSize) + 3) && headerSize == (frame.Dts != frame.Pts ? 10 : 5) && flags == (frame.Dts != frame.Pts ? 0xC0 : 0x80)
+//@   assert after "packPcr(packet[6:], pcr)" [C09.pcr.val] pcr == (frame.Dts > 63000 ? frame.Dts - 63000 : 0)
 //@   loop 1 step [C09.ts.adv]    packetPosAtBuf == old(packetPosAtBuf) + 188 && frame.Cc == old(frame.Cc) + 1
 //@   loop 1 step [C09.ts.hdr] thorough    P[0] == 0x47 && (P[1]&0x40 != 0) == old(first) && P[1]&0xA0 == 0
 //@                               && uint16(P[1]&0x1F)<<8 | uint16(P[2]) == frame.Pid & 0x1FFF
